@@ -88,3 +88,27 @@ func ZZ_C06_O4_reencoded_bytes() {
 	r2, e2 := zzIncludeAndIndex(sm, st, zzAltEncoding(t, 1))
 	zzAssert("O4.same-signed-content-other-encoding-not-executed-again", e2 != nil || len(r2.Results) == 0)
 }
+
+
+// O1b: the same for a NON-canonical encoding: a byte string that is not the deterministic encoding of
+// its transaction (reordered fields, padded varints ...) is still identified by its own bytes - once
+// included and indexed, the identical bytes are not executed again.
+//
+//zz:harness mode=int unwind=60 maxpaths=40000 timebudget=1500 replay=model param.fixparties@quick=1
+//zz:reach O1b.included-once
+func ZZ_C06_O1b_identical_noncanonical_bytes() {
+	w := zzWorldValues()
+	sm, st := zzBuildWorld(w)
+	t := zzAltEncoding(zzSendTxBytes(zzValidEnvelopeSpec("t")), 1)
+	r1, e1 := zzIncludeAndIndex(sm, st, t)
+	if e1 != nil || len(r1.Results) != 1 {
+		return
+	}
+	zzReach("O1b.included-once")
+	before := zzBalances(sm)
+	sm.height++
+	sm.ResetCaches()
+	r2, e2 := zzIncludeAndIndex(sm, st, t)
+	zzAssert("O1b.identical-noncanonical-bytes-not-executed-again", e2 != nil || len(r2.Results) == 0)
+	zzAssert("O1b.balances-unchanged-by-replay", e2 != nil || zzBalances(sm) == before)
+}
